@@ -9,7 +9,10 @@
 (*                                                                         *)
 (* c: minlen, maxlen (beats per packet; the premise "a packet fits the     *)
 (* payload depth" is maxlen <= depth, chosen by the harness), pmax,        *)
-(* bubbles, rdy1 (1: consumer always ready), cap, npar.                    *)
+(* bubbles, rdy1 (1: consumer always ready), credit (> 0: the producer     *)
+(* offers a beat only while fewer than `credit` accepted beats are         *)
+(* undelivered - a credit-based producer that never meets a full FIFO),    *)
+(* cap, npar.                                                              *)
 (* data/param values are only compared and moved (ints in the exhaustive   *)
 (* mode, limb tuples in recorded traces).                                  *)
 (***************************************************************************)
@@ -30,17 +33,20 @@ Rdy(c) == IF c.rdy1 = 1 THEN {1} ELSE {0, 1}
 Inputs(c) ==
   IF hold # <<>>
   THEN { <<1, hold[1], hold[2], hold[3], r>> : r \in Rdy(c) }
-  ELSE { <<1, Tag(c, ep.par, ep.k), l, p, r>> :
-           l \in {x \in {0, 1} : LastAllowed(c, ep.k, x)},
-           p \in (IF ep.k = 0 THEN 0..c.pmax ELSE {ep.p}), r \in Rdy(c) } \cup
-       (IF c.bubbles = 1 \/ ep.k = 0 THEN { <<0, 0, 0, 0, r>> : r \in Rdy(c) } ELSE {})
+  ELSE (IF c.credit = 0 \/ Len(q) < c.credit
+        THEN { <<1, Tag(c, ep.par, ep.k), l, p, r>> :
+                 l \in {x \in {0, 1} : LastAllowed(c, ep.k, x)},
+                 p \in (IF ep.k = 0 THEN 0..c.pmax ELSE {ep.p}), r \in Rdy(c) }
+        ELSE {}) \cup
+       (IF c.bubbles = 1 \/ ep.k = 0 \/ (c.credit > 0 /\ Len(q) >= c.credit) THEN { <<0, 0, 0, 0, r>> : r \in Rdy(c) } ELSE {})
 
 EnvOk(c, iv) ==
   LET tok == <<iv[2], iv[3], iv[4]>> IN
   /\ iv[1] \in {0, 1} /\ iv[5] \in Rdy(c)
   /\ hold # <<>> => (iv[1] = 1 /\ tok = hold)
-  /\ (hold = <<>> /\ iv[1] = 1) => (iv[3] \in {0, 1} /\ LastAllowed(c, ep.k, iv[3]) /\ (ep.k > 0 => iv[4] = ep.p))
-  /\ iv[1] = 0 => (c.bubbles = 1 \/ ep.k = 0)
+  /\ (hold = <<>> /\ iv[1] = 1) => (/\ iv[3] \in {0, 1} /\ LastAllowed(c, ep.k, iv[3]) /\ (ep.k > 0 => iv[4] = ep.p)
+                                    /\ (c.credit = 0 \/ Len(q) < c.credit))
+  /\ iv[1] = 0 => (c.bubbles = 1 \/ ep.k = 0 \/ (c.credit > 0 /\ Len(q) >= c.credit))
 
 Complete(qq) == \E i \in 1..Len(qq) : qq[i][2] = 1      \* the oldest packet in qq has its last beat in qq
 
